@@ -20,7 +20,7 @@ RULE = ("Cases: generated tree x piece length, v1 with align=True through Torren
         "single file with size mod P != 0. Distinct = distinct canonical case JSON.")
 ASSUMPTIONS = [
     "vf/ref/hashing.py SHA-1 slicing (two formulations) and vf/ref/bencode.py",
-    "file names are valid UTF-8; no symlinks/special files",
+    "file names are valid UTF-8; symbolic links to files and directories inside the tree are generated (the tool follows them: linked content is payload under the link's name); no special files",
 ]
 BUDGET = {
     "quick": {"examples": 650, "workers": 8, "time_cap": 70},
